@@ -231,6 +231,17 @@ def run(ctx: Ctx) -> int:
                 else:
                     del b[pos]
             add(tg, bytes(b), ["random"], kinds, "random sites", ["error", "needs_network", "plain_ok"])
+    # a blob of more than 64 KiB (large payloads may take another code path): flips in the sealed fields, truncations
+    for layout in ("in_envelope", "trailing"):
+        tgb = blobfuzz.Target(rng, "SHA256", "nonce", layout, rng.randbytes(70000))
+        for fld in ("ciphertext", "tag", "gcm_nonce", "wrapped_cek"):
+            for lo, hi in tgb.fields.get(fld, [])[:1]:
+                for pos in sorted({lo, hi - 1, (lo + hi) // 2, *(rng.randrange(lo, hi) for _ in range(4))}):
+                    b = bytearray(tgb.blob)
+                    b[pos] ^= 1 << rng.randrange(8)
+                    add(tgb, bytes(b), [fld], ["flip"], f"large blob: byte {pos} in {fld}", ["error"])
+                    ctx.distinct(("large", layout, fld, pos))
+        add(tgb, tgb.blob[:-1], ["trailing_bytes" if layout == "trailing" else "der_structure"], ["truncate"], "truncate large blob by 1", ["error"])
     ctx.count(len(rows))
     slim = [{k: r_[k] for k in ("id", "kind", "res", "allowed", "sealed", "bound")} for r_ in rows]
     bad, stats = validate(ctx, "TraceBlob", "TraceBlob.cfg", slim, chunk=8000, what="tamper")
